@@ -34,6 +34,56 @@ CLAIMED.update({
    ref="4 C09, Appendix A.2"),
 })
 
+VT = "contract-based deductive verification (Verus requires/ensures/loop invariants on mechanically extracted functions; collaborators as stubs carrying the contract their own unit proves)"
+CLAIMED.update({
+ "C01": dict(
+   text="Deductive proof, per block and per request, on the real text of Watcher::{get_breaches, handle_breaches, filtered_block_connected, add_appointment, store_triggered_appointment, store_appointment}, "
+        "Responder::{handle_breach, add_tracker}, Carrier::{send_transaction, in_mempool}: every stored appointment whose locator matches a transaction of the block (or of the 6-block cache at acceptance) is, "
+        "before the call returns, tracked with exactly (dispute, decrypt(blob, txid)), listed for dropping (undecryptable / node rejected), or its penalty is known to the node as confirmed; only matched appointments are touched. "
+        "Whole-history form = this step invariant (winv/rinv are re-established by every entry point) ; no trace induction beyond that.",
+   note=TB + " LDK ordering of block events, A2 fresh/distinct locators, decrypt = uninterpreted dec_spec (wiring proved in the blob unit). Known finding F3 (node says -27) is reported on every run.",
+   technique=VT, ref="4 C01, Appendix A.3"),
+ "C02": dict(
+   text="Deductive proof that every sendrawtransaction call (ghost call log of the RPC oracle) made by Watcher/Responder entry points carries the decrypted penalty of a matched stored appointment, or the dispute/penalty of a "
+        "tracker flagged as reorged, or the penalty of a tracker waiting >= 6 blocks; queries and disconnections send nothing; a tracker row is created only for status accepted() (index / mempool / node OK); "
+        "disconnected blocks' cache entries are purged (TxIndex contract).",
+   note=TB + " The call-site enumeration is by contract frames of the functions under contract; `send_raw_transaction` call sites outside them are reported by the anchor check.",
+   technique=VT, ref="4 C02"),
+ "C04": dict(
+   text="Deductive proof on the real text of Responder::{check_confirmations, handle_reorged_txs, rebroadcast_stale_txs, filtered_block_connected, block_disconnected, handle_breach}, ConfirmationStatus::*, "
+        "Gatekeeper::delete_appointments: completed <=> confirmed, not reorged, exactly 100 deep; refund exactly for completed trackers (end-to-end equation on the users table), none for rejected ones; reorged trackers are "
+        "marked on disconnection and re-submitted (dispute then penalty) on the next connection; stale (>= 6 blocks) penalties re-submitted; confirmed heights never exceed the indexed tip (invariant).",
+   note=TB + " LDK delivers blocks in order; A1 ledger bound, A3 height >= 6, A4 heights < u32::MAX. Known finding F7 (rebroadcast answered -27) reported on every run; F12 fixed (7582f3f).",
+   technique=VT, ref="4 C04, Appendix A.3"),
+ "C06": dict(
+   text="Deductive proof on Gatekeeper::{authenticate_user, has_subscription_expired, get_user_info} and Watcher::{add_appointment, get_appointment, get_subscription_info}: success <=> the signature recovers, over exactly the "
+        "request's message (appointment bytes / fmt(\"get appointment {locator}\") / \"get subscription info\"), to a registered, non-expired user; every refusal leaves all state unchanged; on success only rows at "
+        "uuid(locator, that user) and that user's balance are read or written.",
+   note=TB + " ECDSA recovery and RIPEMD160 are uninterpreted (injectivity of uuid assumed); format! rendering abstract (literal visible).",
+   technique=VT, ref="4 C06"),
+ "C08": dict(
+   text="Deductive proof: receipts' to_vec equal the specified byte layouts, sign/verify are inverse under the signing axiom (wire unit); Watcher::register / add_appointment return receipts whose fields are the values "
+        "persisted (slots, start, expiry) resp. the user's signature and the tower's height at acceptance, signed with the tower key; an Ok receipt implies stored-as-sent / responded / dropped-as-invalid; get_appointment "
+        "returns the stored row's bytes.",
+   note=TB + " DBM read-after-write and SQL column mapping assumed; response construction in InternalAPI is covered under C15 when claimed.",
+   technique=VT, ref="4 C08"),
+ "C16": dict(
+   text="Narrowed: deductive proof that the signed byte layouts (Appointment, RegistrationReceipt, AppointmentReceipt, Locator, UserId) equal their spec functions and determine their fields uniquely (injectivity lemmas, "
+        "big-endian u32 via bit-vector reasoning, UTF-8 via vstd's encode/decode lemma).",
+   note=TB + " NOT covered: serde derive output, build.rs-injected attributes, serde_be/serde_status adapters (generic over Serializer), JSON framing, HTTP layer - code behind macros and libraries.",
+   technique=VT, ref="4 C16"),
+ "C17": dict(
+   text="Narrowed: deductive proof of the wiring of cryptography::{encrypt, decrypt} (key = SHA256(txid), zero nonce, consensus (de)serialisation) hence decrypt(encrypt(t,k),k) == Ok(t) from the AEAD/consensus round-trip axioms; "
+        "verify(m,s,pk) <=> recover_pk(m,s) == Ok(pk); Locator::new(k) == k[0..16].",
+   note=TB + " Tamper rejection / wrong-key failure are properties of Poly1305/ECDSA: assumed, not proved.",
+   technique=VT, ref="4 C17"),
+ "C11": dict(
+   text="Narrowed to abort-freedom: every unwrap/expect/index/arithmetic/cast/unreachable in the ~70 functions under contract (tx_index, gatekeeper, carrier, responder, watcher, wire, blob units) is a discharged obligation "
+        "under the stated preconditions, and those preconditions are discharged at every verified call site. Deadlock/poisoning by interleavings is not decidable with this technique.",
+   note=TB + " Known findings F3, F7 reported on every run; F5, F12 fixed.",
+   technique=VT, ref="4 C11"),
+})
+
 NA = {
  "C03": "quantifies over process-death points, re-bootstrap of an async multi-component program and SQLite durability; no function contract expresses it (DESIGN.md 5)",
  "C10": "schedule/linearizability property; Kani has no threads and Verus only verifies concurrency for programs rewritten with its own lock/permission types; extraction rule E5 removes interleavings by construction",
@@ -72,7 +122,7 @@ m = {
               "kind_free_text": "mechanical extraction of real functions + Verus (deductive, unbounded) / Kani function contracts (loop-free, complete); bounded harnesses labelled bounded"}],
  "checks": checks,
  "not_applicable": na,
- "notes": "fix: commits in /repo: 4c8a027 (TxIndex::get_height), 94cd4a9 (Gatekeeper expiry arithmetic). Known findings: /verif/known_findings.json.",
+ "notes": "fix: commits in /repo: 4c8a027 (TxIndex::get_height), 94cd4a9 (Gatekeeper expiry arithmetic), 7582f3f (Responder reorged tracker of purged user). Known findings: /verif/known_findings.json.",
 }
 json.dump(m, open(os.path.join(VERIF, "MANIFEST.json"), "w"), indent=1)
 print("MANIFEST.json: %d checks, %d not_applicable" % (len(checks), len(na)))
